@@ -186,26 +186,42 @@ pub fn run_part<P: Property>(prop: &P, cfg: &Cfg) -> PartResult {
     let failure: Mutex<Option<P::Case>> = Mutex::new(None);
 
     let _ = std::fs::create_dir_all(&cfg.replays_out);
-    // --- bounded-exhaustive phase
-    if let Some(iter) = prop.exhaustive(cfg.tier) {
-        let mut count = 0u64;
-        for case in iter {
-            count += 1;
-            PROGRESS.fetch_add(1, Ordering::Relaxed);
-            if count % 64 == 1 || cfg.inflight_every_case { write_inflight(cfg, prop.part(), 99, &case); }
-            let rep = prop.run_guarded(&case);
-            account(&shared, &rep, || serde_json::to_value(&case).unwrap_or(Value::Null));
-            if let Verdict::Violation { signature, .. } = &rep.verdict {
-                if is_known(signature) {
-                    *shared.res.lock().unwrap().known_hits.entry(signature.clone()).or_insert(0) += 1;
-                } else {
-                    *failure.lock().unwrap() = Some(case);
-                    break;
-                }
+    // --- bounded-exhaustive phase (the enumeration is split over the workers: worker w takes the cases w, w+W, w+2W, ...)
+    if prop.exhaustive(cfg.tier).is_some() {
+        let count = AtomicU64::new(0);
+        let workers = cfg.workers.max(1);
+        std::thread::scope(|scope| {
+            for w in 0..workers {
+                let shared = &shared;
+                let failure = &failure;
+                let is_known = &is_known;
+                let count = &count;
+                scope.spawn(move || {
+                    let Some(iter) = prop.exhaustive(cfg.tier) else { return };
+                    for (n, case) in iter.skip(w).step_by(workers).enumerate() {
+                        if shared.stop.load(Ordering::Relaxed) { break; }
+                        count.fetch_add(1, Ordering::Relaxed);
+                        PROGRESS.fetch_add(1, Ordering::Relaxed);
+                        if n % 64 == 0 || cfg.inflight_every_case { write_inflight(cfg, prop.part(), 100 + w, &case); }
+                        let rep = prop.run_guarded(&case);
+                        account(shared, &rep, || serde_json::to_value(&case).unwrap_or(Value::Null));
+                        if let Verdict::Violation { signature, detail } = &rep.verdict {
+                            if survey { SURVEY_DETAILS.lock().unwrap().entry(signature.clone()).or_insert_with(|| detail.clone()); }
+                            if is_known(signature) {
+                                *shared.res.lock().unwrap().known_hits.entry(signature.clone()).or_insert(0) += 1;
+                            } else {
+                                shared.stop.store(true, Ordering::Relaxed);
+                                let mut f = failure.lock().unwrap();
+                                if f.is_none() { *f = Some(case); }
+                                break;
+                            }
+                        }
+                    }
+                    clear_inflight(cfg, prop.part(), 100 + w);
+                });
             }
-        }
-        clear_inflight(cfg, prop.part(), 99);
-        shared.res.lock().unwrap().exhaustive = Some(count);
+        });
+        shared.res.lock().unwrap().exhaustive = Some(count.load(Ordering::Relaxed));
     }
 
     // --- generated search
